@@ -95,6 +95,7 @@ type e4Result struct {
 	Fired         []string
 	ProtoErrs     []string
 	SubPkts       []vEvent
+	Samples       []c16Sample
 	ConnectErr    error
 	ConnectReturn bool
 	DisconnectErr error
@@ -335,6 +336,7 @@ func e4Run(c e4Case) (res *e4Result) {
 	e.ctx = ctx
 
 	connected := false
+	var discConn *vbConn // the healthy connection that a "disconnect" step ended gracefully
 	disconnected := false
 	connDone := make(chan struct{})
 	var connStarted bool
@@ -485,8 +487,43 @@ func e4Run(c e4Case) (res *e4Result) {
 			time.Sleep(time.Duration(s.Extra) * time.Microsecond)
 		case "yield":
 			runtime.Gosched()
+		case "sample":
+			// C16: what do Err() and Done() say about the connection right now
+			if disconnected {
+				if discConn != nil {
+					smp := c16Sample{Seq: log.lastSeq(), Conn: discConn.id, AfterDisc: true, Err: discConn.cli.Err()}
+					select {
+					case <-discConn.cli.Done():
+					default:
+						smp.DoneOpen = true
+					}
+					res.Samples = append(res.Samples, smp)
+				}
+			} else if bc := d.currentConn(); bc != nil && connected {
+				b.mu.Lock()
+				healthy := !bc.dead && !bc.silent && bc.connected
+				b.mu.Unlock()
+				smp := c16Sample{Seq: log.lastSeq(), Conn: bc.id, Err: bc.cli.Err()}
+				select {
+				case <-bc.cli.Done():
+				default:
+					smp.DoneOpen = true
+				}
+				// healthy only if it still is after the sample was taken
+				b.mu.Lock()
+				smp.Healthy = healthy && !bc.dead && !bc.silent
+				b.mu.Unlock()
+				res.Samples = append(res.Samples, smp)
+			}
 		case "disconnect":
 			if connStarted && !disconnected {
+				if bc := d.currentConn(); bc != nil {
+					b.mu.Lock()
+					if !bc.dead && !bc.silent && bc.connected {
+						discConn = bc
+					}
+					b.mu.Unlock()
+				}
 				dctx, dcancel := context.WithTimeout(context.Background(), 20*time.Second)
 				res.DisconnectErr = cli.Disconnect(dctx)
 				dcancel()
@@ -586,7 +623,7 @@ func e4GenSteps(rt *rapid.T, o e4GenOpts) []e4Step {
 		for i := 0; i < r.NSubs; i++ {
 			r.F = append(r.F, c05Sub{Filter: rapid.SampledFrom(pool).Draw(rt, "f"), QoS: rapid.IntRange(0, 2).Draw(rt, "fq")})
 		}
-		r.Ctl = rapid.SampledFrom([]int{0, 1, 2, 2, 3, 3, 4, 5}).Draw(rt, "ctl")
+		r.Ctl = rapid.SampledFrom([]int{0, 1, 2, 2, 3, 3, 4, 5, 6, 6, 6}).Draw(rt, "ctl")
 		return r
 	}), 1, o.MaxSteps).Draw(rt, "steps")
 
@@ -635,6 +672,14 @@ func e4GenSteps(rt *rapid.T, o e4GenOpts) []e4Step {
 				}
 			case 4:
 				steps = append(steps, e4Step{Kind: "sleep", Extra: r.Extra * 10})
+			case 6:
+				// un-gated cut: the reconnect races with the following submissions
+				if !held {
+					steps = append(steps, e4Step{Kind: "cutNow"})
+					if r.Extra > 0 {
+						steps = append(steps, e4Step{Kind: "sleep", Extra: r.Extra * 5})
+					}
+				}
 			case 5:
 				steps = append(steps, e4Step{Kind: "yield"})
 			}
